@@ -180,6 +180,62 @@ def describe_candidate(v: Any) -> str:
     return value_kind(v)
 
 
+_TWISTED: List[Any] = []
+
+
+def _twisted_env() -> Any:
+    """An environment of a subclass with the default options whose comparison is always true and whose functions answer nonsense."""
+    import jsonpath
+    from jsonpath.function_extensions import ExpressionType, FilterFunction
+
+    if not _TWISTED:
+        class One(FilterFunction):
+            arg_types = [ExpressionType.VALUE]
+            return_type = ExpressionType.VALUE
+
+            def __call__(self, *_a: Any) -> Any:
+                return 1
+
+        class Yes(FilterFunction):
+            arg_types = [ExpressionType.VALUE, ExpressionType.VALUE]
+            return_type = ExpressionType.LOGICAL
+
+            def __call__(self, *_a: Any) -> Any:
+                return True
+
+        class Twisted(jsonpath.JSONPathEnvironment):
+            def compare(self, left: object, operator: str, right: object) -> bool:  # noqa: ARG002
+                return True
+
+        t = Twisted()
+        t.function_extensions["length"] = One()
+        t.function_extensions["match"] = Yes()
+        t.function_extensions["search"] = Yes()
+        _TWISTED.append(t)
+    return _TWISTED[0]
+
+
+def share_containers(doc: Any) -> Any:
+    """The document with structurally equal containers (same JSON text, booleans and numbers kept apart) made one object."""
+    pool: Dict[str, Any] = {}
+
+    def go(v: Any) -> Any:
+        if isinstance(v, list):
+            out: Any = [go(x) for x in v]
+        elif isinstance(v, dict):
+            out = {k: go(x) for k, x in v.items()}
+        else:
+            return v
+        key = json.dumps(out, sort_keys=False)
+        return pool.setdefault(key, out)
+
+    return go(doc)
+
+
+async def _acollect_matches(path: Any, doc: Any, kw: Dict[str, Any]) -> List[Any]:
+    return [m async for m in await path.finditer_async(doc, **kw)]
+
+
 def compare_eval(rec: Dict[str, Any], tbl: "DocTable", *, styles: Sequence[int], float_variants: bool = False,
                  ctx: Any = None, env: Any = None, ordered: bool = True) -> List[Tuple[str, Dict[str, Any], str]]:
     """Compile each text of the record, evaluate on every document and compare locations with the
@@ -197,6 +253,13 @@ def compare_eval(rec: Dict[str, Any], tbl: "DocTable", *, styles: Sequence[int],
                 # belongs to the environment that compiles it
                 try:
                     jsonpath.JSONPathEnvironment(unicode_escape=False, well_typed=False).compile(text)
+                except Exception:  # noqa: BLE001
+                    pass
+                # ... and so does an environment with the very same options but other behaviour (its own comparison and functions):
+                # a compiled query evaluates through the environment that compiled it, nobody else's
+                try:
+                    tw = _twisted_env()
+                    tw.findall(text, {"a": [1, {"a": 1, "b": "ab"}], "b": "ab"})
                 except Exception:  # noqa: BLE001
                     pass
             path = (env or jsonpath).compile(text)
@@ -235,6 +298,17 @@ def compare_eval(rec: Dict[str, Any], tbl: "DocTable", *, styles: Sequence[int],
                                     v["edited-by-caller"] = True
                             if [canon_plain(v) for v in path.findall(tdoc, **kw)] != want:
                                 disc = "second-evaluation-of-the-same-json-text-differs"
+                        elif d % 4 == 3 and isinstance(doc, (list, dict)):
+                            # the same document with every pair of equal containers being one object (a tree to JSON, a DAG to
+                            # the host): read-only evaluation cannot tell - same locations, same order, once per location
+                            sdoc = share_containers(untag(tbl.docs[d]["doc"]))
+                            sobs = [lockey(parts_to_loc(m.parts)) for m in path.finditer(sdoc, **kw)]
+                            if sobs != exp:
+                                disc = "document-with-shared-containers-selects-other-nodes"
+                            else:
+                                aobs = [lockey(parts_to_loc(m.parts)) for m in _drive(_acollect_matches(path, sdoc, kw))]
+                                if aobs != exp:
+                                    disc = "async-twin-on-document-with-shared-containers-selects-other-nodes"
                         elif d % 4 == 2 and env is None:
                             # one environment object whose options are changed between two uses of the same text
                             e2 = jsonpath.JSONPathEnvironment(unicode_escape=False, filter_caching=False)
